@@ -25,7 +25,7 @@ ASSUMPTIONS = ['Agent/Environment/world classes are process-global: every histor
 FLOORS = {'quick': {'class_observations': 100000, 'class_attach': 2000, 'class_detach': 400, 'rejected_duplicate_attach': 200,
                     'rejected_absent_detach': 500, 'default_tag_changes': 2000, 'instances_default_tag': 2000,
                     'instances_default_tag_nonzero': 380, 'instances_explicit_tag': 800, 'instances_explicit_zero_vs_default': 100,
-                    'environment_instances': 500, 'ops_on_library_classes': 2000, 'mid_history_classes': 500, 'same_named_classes': 300,
+                    'environment_instances': 500, 'instances_added_to_environment': 1000, 'ops_on_library_classes': 2000, 'mid_history_classes': 500, 'same_named_classes': 300,
                     'reach:Core._MetaAgent.add_class_component': 3000, 'reach:Core.Agent.__init__': 4600},
           'thorough': {'class_observations': 5000000}}
 EXHAUSTIVE = {}
@@ -172,6 +172,9 @@ def case_history(ctx, case):
                 obj, explicit = make_instance(core, envs, K, model, f'i{len(instances)}', tag)
                 exp = tag if explicit else ref[K]['tag']
                 instances.append((obj, exp, {}))
+                if not issubclass(K, core.Environment) and rng.random() < 0.5:
+                    model.environment.add_agent(obj)       # joining an environment does not change an agent's tag
+                    ctx.count('instances_added_to_environment')
                 if explicit:
                     ctx.count('instances_explicit_tag')
                     if tag == 0 and ref[K]['tag'] != 0:
